@@ -263,13 +263,13 @@ class Contrasts(metaclass=InterfaceMeta):
                         else range(dummies.shape[0])
                     )
                 )
-            elif output == "numpy":
+            elif output in ("numpy", "narwhals"):
                 encoded = numpy.ones((dummies.shape[0], 0))
             elif output == "sparse":
                 encoded = spsparse.csc_matrix((dummies.shape[0], 0))
             else:  # pragma: no cover
                 raise ValueError(
-                    "Short-circuiting is only implemented for output types: 'pandas', 'numpy' or 'sparse'."
+                    "Short-circuiting is only implemented for output types: 'narwhals', 'pandas', 'numpy' or 'sparse'."
                 )
             return FactorValues(
                 encoded,
